@@ -91,7 +91,7 @@ def PackedInv (anchor : Node) (depth per : Nat) (st : PackedIterState) : Prop :=
   NodeIterInv anchor depth { i := st.rootIndex, stack := st.stack } ∧
   ((st.j = per ∧ st.i = st.rootIndex * per) ∨
    (0 < st.j ∧ st.j < per ∧ ∃ q, st.rootIndex = q + 1 ∧ st.i = q * per + st.j ∧
-      getAt anchor q depth = some st.currentRoot))
+      getAt anchor q depth = some st.currentRoot ∧ st.currentRoot.isLeaf = true))
 
 theorem packedInv_init (anchor : Node) (depth per : Nat) (c : Node) :
     PackedInv anchor depth per
@@ -110,7 +110,7 @@ theorem packedIterNext_spec (H : Hash) (et : Ty) (anchor : Node) (depth per : Na
   obtain ⟨i, j, rootIndex, cur, stack⟩ := st
   obtain ⟨hni, hcase⟩ := hinv
   simp only at hni hcase hleaf hdec ⊢
-  rcases hcase with ⟨hj, hi⟩ | ⟨hj0, hjp, q, hr, hi, hcur⟩
+  rcases hcase with ⟨hj, hi⟩ | ⟨hj0, hjp, q, hr, hi, hcur, hcl⟩
   · -- a new chunk is needed: chunk number `rootIndex = i / per`, slot `0 = i % per`
     obtain ⟨n, hn, hl⟩ := hleaf
     have hdiv : i / per = rootIndex := by rw [hi, Nat.mul_div_cancel _ hper]
@@ -126,7 +126,7 @@ theorem packedIterNext_spec (H : Hash) (et : Ty) (anchor : Node) (depth per : Na
         Bool.false_eq_true, hdec]
     · by_cases hp1 : per = 1
       · exact .inl ⟨hp1.symm, by simp only [hi, hp1, Nat.mul_one]⟩
-      · exact .inr ⟨by omega, by omega, rootIndex, rfl, by simp only [hi], hn⟩
+      · refine .inr ⟨?_, ?_, rootIndex, rfl, by simp only [hi], hn, hl⟩ <;> simp only <;> omega
   · -- strictly inside chunk `q = i / per`, slot `j = i % per`
     obtain ⟨hdiv, hmod⟩ := div_mod_of per q j hjp
     rw [← hi] at hdiv hmod
@@ -137,7 +137,7 @@ theorem packedIterNext_spec (H : Hash) (et : Ty) (anchor : Node) (depth per : Na
       · refine .inl ⟨hlast, ?_⟩
         simp only [hr, hi, Nat.succ_mul]
         omega
-      · exact .inr ⟨by omega, by omega, q, hr, by simp only [hi]; omega, hcur⟩
+      · refine .inr ⟨?_, ?_, q, hr, by simp only [hi]; omega, hcur, hcl⟩ <;> simp only <;> omega
 
 /-- The whole run from an invariant state: it yields the elements `i, i+1, …, length-1` read by
     index.  Any `fuel ≥ length - i` will do. -/
@@ -167,10 +167,25 @@ theorem packedIterRun_spec (H : Hash) (et : Ty) (anchor : Node) (depth per lengt
       rw [hsplit, List.range'_succ, hi']
       rfl
 
+theorem packedIterNext_i (H : Hash) (et : Ty) (anchor : Node) (depth per : Nat)
+    (s : PackedIterState) (v : Val) (s' : PackedIterState)
+    (h : packedIterNext H et anchor depth per s = some (v, s')) : s'.i = s.i + 1 := by
+  unfold packedIterNext at h
+  split at h
+  · split at h
+    · cases h
+    · cases h; rfl
+  · split at h
+    · cases h
+    · split at h
+      · cases h
+      · split at h
+        · cases h
+        · cases h; rfl
+
 /-- the `fuel` argument of the run is immaterial once it covers the remaining elements -/
 theorem packedIterRun_fuel (H : Hash) (et : Ty) (anchor : Node) (depth per length : Nat)
-    (fuel : Nat) (st : PackedIterState) (hfuel : length - st.i ≤ fuel)
-    (hstep : ∀ s v s', packedIterNext H et anchor depth per s = some (v, s') → s'.i = s.i + 1) :
+    (fuel : Nat) (st : PackedIterState) (hfuel : length - st.i ≤ fuel) :
     packedIterRun H et anchor depth per length fuel st
       = packedIterRun H et anchor depth per length (length - st.i) st := by
   induction fuel generalizing st with
@@ -188,25 +203,9 @@ theorem packedIterRun_fuel (H : Hash) (et : Ty) (anchor : Node) (depth per lengt
       | none => rfl
       | some r =>
         obtain ⟨v, s'⟩ := r
-        have := hstep st v s' hn
+        have := packedIterNext_i H et anchor depth per st v s' hn
         simp only
         rw [ih s' (by omega), show k = length - s'.i by omega]
-
-theorem packedIterNext_i (H : Hash) (et : Ty) (anchor : Node) (depth per : Nat)
-    (s : PackedIterState) (v : Val) (s' : PackedIterState)
-    (h : packedIterNext H et anchor depth per s = some (v, s')) : s'.i = s.i + 1 := by
-  unfold packedIterNext at h
-  split at h
-  · split at h
-    · cases h
-    · cases h; rfl
-  · split at h
-    · cases h
-    · split at h
-      · cases h
-      · split at h
-        · cases h
-        · cases h; rfl
 
 /-- **1. `PackedIter` yields exactly what indexing yields.**  If every chunk `c < ⌈length / per⌉` is
     reachable by gindex and is a leaf, and every element decodes (`f i` is the result of
@@ -254,5 +253,736 @@ theorem packedIter_too_long (H : Hash) (et : Ty) (anchor : Node) (depth length :
   split
   · rfl
   · simp [h]
+
+/-! ### converse: whatever `PackedIter` yields is what indexing yields -/
+
+theorem packedIterNext_sound (H : Hash) (et : Ty) (anchor : Node) (depth per : Nat) (hper : 0 < per)
+    (st : PackedIterState) (v : Val) (st' : PackedIterState)
+    (hinv : PackedInv anchor depth per st) (hlt : st.i < 2 ^ depth * per)
+    (h : packedIterNext H et anchor depth per st = some (v, st')) :
+    (∃ n, getAt anchor (st.i / per) depth = some n ∧ n.isLeaf = true) ∧
+    ((getAt anchor (st.i / per) depth).bind fun c => readBasicAt H et c (st.i % per)) = some v := by
+  obtain ⟨i, j, rootIndex, cur, stack⟩ := st
+  obtain ⟨hni, hcase⟩ := hinv
+  simp only at hni hcase hlt ⊢
+  rcases hcase with ⟨hj, hi⟩ | ⟨hj0, hjp, q, hr, hi, hcur, hcl⟩
+  · have hdiv : i / per = rootIndex := by rw [hi, Nat.mul_div_cancel _ hper]
+    have hmod : i % per = 0 := by rw [hi, Nat.mul_mod_left]
+    have hrlt : rootIndex < 2 ^ depth := by
+      rw [hi] at hlt; exact Nat.lt_of_mul_lt_mul_right hlt
+    simp only [packedIterNext, hj, Nat.lt_irrefl, if_false] at h
+    cases hnx : nodeIterNext anchor depth ⟨rootIndex, stack⟩ with
+    | none => simp [hnx] at h
+    | some r =>
+      obtain ⟨node, walk⟩ := r
+      simp only [hnx] at h
+      have hg := nodeIterNext_sound anchor depth ⟨rootIndex, stack⟩ node walk hni hrlt hnx
+      simp only at hg
+      cases hl : node.isLeaf with
+      | false => simp [hl] at h
+      | true =>
+        simp only [hl, Bool.not_true, Bool.false_eq_true, if_false] at h
+        cases hd : readBasicAt H et node 0 with
+        | none => simp [hd] at h
+        | some el =>
+          simp only [hd, Option.some.injEq, Prod.mk.injEq] at h
+          obtain ⟨rfl, _⟩ := h
+          rw [hdiv, hmod, hg]
+          exact ⟨⟨node, rfl, hl⟩, by simpa using hd⟩
+  · obtain ⟨hdiv, hmod⟩ := div_mod_of per q j hjp
+    rw [← hi] at hdiv hmod
+    simp only [packedIterNext, hjp, if_true] at h
+    cases hd : readBasicAt H et cur j with
+    | none => simp [hd] at h
+    | some el =>
+      simp only [hd, Option.some.injEq, Prod.mk.injEq] at h
+      obtain ⟨rfl, _⟩ := h
+      rw [hdiv, hmod, hcur]
+      exact ⟨⟨cur, rfl, hcl⟩, by simpa using hd⟩
+
+theorem packedIterRun_sound (H : Hash) (et : Ty) (anchor : Node) (depth per length : Nat)
+    (hper : 0 < per) (hb : length ≤ 2 ^ depth * per) (fuel : Nat) (st : PackedIterState)
+    (out : List Val) (hinv : PackedInv anchor depth per st) (hfuel : length - st.i ≤ fuel)
+    (hrun : packedIterRun H et anchor depth per length fuel st = some out) :
+    out.length = length - st.i ∧ ∀ i, st.i ≤ i → i < length →
+      (∃ n, getAt anchor (i / per) depth = some n ∧ n.isLeaf = true) ∧
+      ((getAt anchor (i / per) depth).bind fun c => readBasicAt H et c (i % per))
+        = some (out.getD (i - st.i) (Val.num 0)) := by
+  induction fuel generalizing st out with
+  | zero =>
+    simp [packedIterRun] at hrun
+    subst hrun
+    exact ⟨by simp; omega, fun i h1 h2 => by omega⟩
+  | succ fuel ih =>
+    by_cases hstop : st.i ≥ length
+    · simp [packedIterRun, hstop] at hrun
+      subst hrun
+      exact ⟨by simp; omega, fun i h1 h2 => by omega⟩
+    · simp only [packedIterRun, hstop, if_false] at hrun
+      cases hnx : packedIterNext H et anchor depth per st with
+      | none => simp [hnx] at hrun
+      | some r =>
+        obtain ⟨v, st'⟩ := r
+        simp only [hnx] at hrun
+        have hs := packedIterNext_sound H et anchor depth per hper st v st' hinv (by omega) hnx
+        obtain ⟨st'', hnx', hi', hinv'⟩ :=
+          packedIterNext_spec H et anchor depth per hper st v hinv hs.1 hs.2
+        rw [hnx] at hnx'
+        simp only [Option.some.injEq, Prod.mk.injEq, true_and] at hnx'
+        subst hnx'
+        cases hr : packedIterRun H et anchor depth per length fuel st' with
+        | none => simp [hr] at hrun
+        | some rest =>
+          simp [hr] at hrun
+          subst hrun
+          obtain ⟨hl, hall⟩ := ih st' rest hinv' (by omega) hr
+          refine ⟨by simp [hl]; omega, ?_⟩
+          intro i h1 h2
+          by_cases hEq : i = st.i
+          · subst hEq
+            simpa using hs
+          · have := hall i (by omega) h2
+            rw [show i - st.i = (i - st'.i) + 1 by omega]
+            simpa using this
+
+/-- **1'. converse of `packedIter_eq_index`**: if `PackedIter` does not raise, it yielded `length`
+    elements, every chunk it visited is a reachable leaf, and every yielded element is what reading
+    by index returns.  So the iterator succeeds iff all chunks are leaves and all indexed reads
+    succeed, and then both give the same list. -/
+theorem packedIter_some_index (H : Hash) (et : Ty) (anchor : Node) (depth length : Nat)
+    (vs : List Val) (h : packedIter H et anchor depth length = some vs) :
+    et.basicSize ≠ 0 ∧ length ≤ 2 ^ depth * (32 / et.basicSize) ∧ vs.length = length ∧
+    (∀ c, c * (32 / et.basicSize) < length →
+      ∃ n, getAt anchor c depth = some n ∧ n.isLeaf = true) ∧
+    (∀ i, i < length →
+      ((getAt anchor (i / (32 / et.basicSize)) depth).bind
+        fun c => readBasicAt H et c (i % (32 / et.basicSize))) = some (vs.getD i (Val.num 0))) := by
+  unfold packedIter at h
+  split at h
+  · cases h
+  rename_i hsz
+  simp only at h
+  split at h
+  · cases h
+  rename_i hlim
+  have hlen : length ≤ 2 ^ depth * (32 / et.basicSize) := by omega
+  refine ⟨hsz, hlen, ?_⟩
+  by_cases hper : 32 / et.basicSize = 0
+  · have h0 : length = 0 := by
+      have h2 := hlen
+      rw [hper, Nat.mul_zero] at h2
+      omega
+    subst h0
+    simp [packedIterRun] at h
+    subst h
+    exact ⟨rfl, fun c hc => by omega, fun i hi => by omega⟩
+  · have hper' : 0 < 32 / et.basicSize := Nat.pos_of_ne_zero hper
+    obtain ⟨hl, hall⟩ := packedIterRun_sound H et anchor depth _ length hper' hlen length _ vs
+      (packedInv_init anchor depth _ (.leaf zeroChunk)) (by simp) h
+    refine ⟨by simpa using hl, ?_, ?_⟩
+    · intro c hc
+      have := (hall (c * (32 / et.basicSize)) (by simp) hc).1
+      rwa [Nat.mul_div_cancel _ hper'] at this
+    · intro i hi
+      simpa using (hall i (by simp) hi).2
+
+/-! ## 2. `BitfieldIter` -/
+
+/-- Invariant of `BitfieldIter`: `j = 0` means a new chunk is needed (`i` is a multiple of 256 and
+    `rootIndex` chunks are consumed); otherwise `1 ≤ j ≤ 255` and `currentRoot` is the root of chunk
+    `rootIndex - 1`. -/
+def BitInv (H : Hash) (anchor : Node) (depth : Nat) (st : BitfieldIterState) : Prop :=
+  NodeIterInv anchor depth { i := st.rootIndex, stack := st.stack } ∧
+  ((st.j = 0 ∧ st.i = st.rootIndex * 256) ∨
+   (0 < st.j ∧ st.j < 256 ∧ ∃ q n, st.rootIndex = q + 1 ∧ st.i = q * 256 + st.j ∧
+      getAt anchor q depth = some n ∧ n.isLeaf = true ∧ n.root H = st.currentRoot))
+
+theorem bitInv_init (H : Hash) (anchor : Node) (depth : Nat) (c : Chunk) :
+    BitInv H anchor depth
+      { i := 0, j := 0, rootIndex := 0, currentRoot := c, stack := List.replicate depth none } :=
+  ⟨nodeIterInv_init anchor depth, .inl ⟨rfl, by simp⟩⟩
+
+theorem bitfieldIterNext_spec (H : Hash) (anchor : Node) (depth : Nat) (st : BitfieldIterState)
+    (n : Node) (hinv : BitInv H anchor depth st)
+    (hget : getAt anchor (st.i / 256) depth = some n) (hleaf : n.isLeaf = true) :
+    ∃ st', bitfieldIterNext H anchor depth st = some (bitOfChunk (n.root H) st.i, st') ∧
+      st'.i = st.i + 1 ∧ BitInv H anchor depth st' := by
+  obtain ⟨i, j, rootIndex, cur, stack⟩ := st
+  obtain ⟨hni, hcase⟩ := hinv
+  simp only at hni hcase hget ⊢
+  rcases hcase with ⟨hj, hi⟩ | ⟨hj0, hjp, q, m, hr, hi, hcur, hml, hroot⟩
+  · have hdiv : i / 256 = rootIndex := by omega
+    have hmod : i % 256 = 0 := by omega
+    rw [hdiv] at hget
+    obtain ⟨walk, hnext, hwi, hwinv⟩ := nodeIterNext_spec anchor depth ⟨rootIndex, stack⟩ n hni hget
+    obtain ⟨wi, wstack⟩ := walk
+    simp only at hwi
+    subst hwi
+    refine ⟨⟨i + 1, 1, rootIndex + 1, n.root H, wstack⟩, ?_, rfl, hwinv, ?_⟩
+    · simp only [bitfieldIterNext, hj, Nat.lt_irrefl, gt_iff_lt, if_false, hnext, hleaf,
+        Bool.not_true, Bool.false_eq_true, firstBit_eq (n.root H) i hmod]
+    · refine .inr ⟨?_, ?_, rootIndex, n, rfl, ?_, hget, hleaf, rfl⟩ <;> simp only <;> omega
+  · have hdiv : i / 256 = q := by omega
+    have hmod : i % 256 = j := by omega
+    rw [hdiv, hcur] at hget
+    cases hget
+    refine ⟨⟨i + 1, if j + 1 > 0xff then 0 else j + 1, rootIndex, cur, stack⟩, ?_, rfl, hni, ?_⟩
+    · simp only [bitfieldIterNext, gt_iff_lt, hj0, if_true, hroot,
+        bitfieldIterBit_eq cur i j hmod]
+    · by_cases hlast : j + 1 > 0xff
+      · refine .inl ⟨?_, ?_⟩ <;> simp only [hlast, if_true] <;> omega
+      · refine .inr ⟨?_, ?_, q, n, hr, ?_, hcur, hml, hroot⟩ <;> simp only [hlast, if_false] <;> omega
+
+theorem bitfieldIterRun_spec (H : Hash) (anchor : Node) (depth length : Nat) (f : Nat → Bool)
+    (fuel : Nat) (st : BitfieldIterState) (hinv : BitInv H anchor depth st)
+    (hfuel : length - st.i ≤ fuel)
+    (hdec : ∀ i, st.i ≤ i → i < length →
+      ∃ n, getAt anchor (i / 256) depth = some n ∧ n.isLeaf = true ∧
+        bitOfChunk (n.root H) i = f i) :
+    bitfieldIterRun H anchor depth length fuel st
+      = some ((List.range' st.i (length - st.i)).map f) := by
+  induction fuel generalizing st with
+  | zero =>
+    have : length - st.i = 0 := by omega
+    simp [bitfieldIterRun, this]
+  | succ fuel ih =>
+    by_cases hstop : st.i ≥ length
+    · have : length - st.i = 0 := by omega
+      simp [bitfieldIterRun, hstop, this]
+    · obtain ⟨n, hn, hl, hb⟩ := hdec st.i (Nat.le_refl _) (by omega)
+      obtain ⟨st', hnext, hi', hinv'⟩ := bitfieldIterNext_spec H anchor depth st n hinv hn hl
+      have hrest := ih st' hinv' (by omega) (fun i h1 h2 => hdec i (by omega) h2)
+      have hsplit : length - st.i = (length - st'.i) + 1 := by omega
+      simp only [bitfieldIterRun, hstop, if_false, hnext, hrest, Option.map_some]
+      rw [hsplit, List.range'_succ, hi', hb]
+      rfl
+
+theorem bitfieldIterNext_i (H : Hash) (anchor : Node) (depth : Nat)
+    (s : BitfieldIterState) (b : Bool) (s' : BitfieldIterState)
+    (h : bitfieldIterNext H anchor depth s = some (b, s')) : s'.i = s.i + 1 := by
+  unfold bitfieldIterNext at h
+  split at h
+  · cases h; rfl
+  · split at h
+    · cases h
+    · split at h
+      · cases h
+      · cases h; rfl
+
+theorem bitfieldIterRun_fuel (H : Hash) (anchor : Node) (depth length : Nat)
+    (fuel : Nat) (st : BitfieldIterState) (hfuel : length - st.i ≤ fuel) :
+    bitfieldIterRun H anchor depth length fuel st
+      = bitfieldIterRun H anchor depth length (length - st.i) st := by
+  induction fuel generalizing st with
+  | zero =>
+    have : length - st.i = 0 := by omega
+    rw [this]
+  | succ fuel ih =>
+    by_cases hstop : st.i ≥ length
+    · have : length - st.i = 0 := by omega
+      simp [bitfieldIterRun, hstop, this]
+    · obtain ⟨k, hk⟩ : ∃ k, length - st.i = k + 1 := ⟨length - st.i - 1, by omega⟩
+      rw [hk]
+      simp only [bitfieldIterRun, hstop, if_false]
+      cases hn : bitfieldIterNext H anchor depth st with
+      | none => rfl
+      | some r =>
+        obtain ⟨v, s'⟩ := r
+        have := bitfieldIterNext_i H anchor depth st v s' hn
+        simp only
+        rw [ih s' (by omega), show k = length - s'.i by omega]
+
+/-- **2. `BitfieldIter` yields exactly what indexing yields.**  If every chunk `c < ⌈length / 256⌉`
+    is reachable by gindex and is a leaf, the iterator yields bit `i` of chunk `i / 256` for
+    `i = 0 … length-1` — what `BitsView.get(i)` returns — for EVERY depth and length. -/
+theorem bitfieldIter_eq_index (H : Hash) (anchor : Node) (depth length : Nat) (f : Nat → Bool)
+    (hlen : length ≤ 2 ^ depth * 256)
+    (hleaf : ∀ c, c * 256 < length → ∃ n, getAt anchor c depth = some n ∧ n.isLeaf = true)
+    (hdec : ∀ i, i < length →
+      (getAt anchor (i / 256) depth).map (fun c => bitOfChunk (c.root H) i) = some (f i)) :
+    bitfieldIter H anchor depth length = some ((List.range length).map f) := by
+  unfold bitfieldIter
+  simp only
+  rw [if_neg (by omega)]
+  have := bitfieldIterRun_spec H anchor depth length f length _
+    (bitInv_init H anchor depth zeroChunk) (by simp)
+    (fun i _ hi => by
+      obtain ⟨n, hn, hl⟩ := hleaf (i / 256) (by omega)
+      have := hdec i hi
+      rw [hn, Option.map_some] at this
+      exact ⟨n, hn, hl, Option.some.inj this⟩)
+  rw [this, List.range_eq_range']
+  rfl
+
+/-- the same with the index loop of `readVal` (`Bitvector` / `Bitlist`) on the right-hand side:
+    no decoding hypothesis is needed, a bit read cannot fail once the chunk is there -/
+theorem bitfieldIter_eq_allSome (H : Hash) (anchor : Node) (depth length : Nat)
+    (hlen : length ≤ 2 ^ depth * 256)
+    (hleaf : ∀ c, c * 256 < length → ∃ n, getAt anchor c depth = some n ∧ n.isLeaf = true) :
+    bitfieldIter H anchor depth length =
+      allSome ((List.range length).map fun i =>
+        (getAt anchor (i / 256) depth).map fun c => bitOfChunk (c.root H) i) := by
+  have hdec : ∀ i, i < length →
+      (getAt anchor (i / 256) depth).map (fun c => bitOfChunk (c.root H) i)
+        = some (bitOfChunk (((getAt anchor (i / 256) depth).getD default).root H) i) := by
+    intro i hi
+    obtain ⟨n, hn, _⟩ := hleaf (i / 256) (by omega)
+    simp [hn]
+  rw [bitfieldIter_eq_index H anchor depth length _ hlen hleaf hdec,
+    allSome_map_some _ _ _ (fun i hi => hdec i (by simpa using hi))]
+
+theorem bitfieldIter_too_long (H : Hash) (anchor : Node) (depth length : Nat)
+    (h : 2 ^ depth * 256 < length) : bitfieldIter H anchor depth length = none := by
+  simp [bitfieldIter, h]
+
+/-! ### converse: whatever `BitfieldIter` yields is what indexing yields -/
+
+theorem bitfieldIterNext_sound (H : Hash) (anchor : Node) (depth : Nat)
+    (st : BitfieldIterState) (b : Bool) (st' : BitfieldIterState)
+    (hinv : BitInv H anchor depth st) (hlt : st.i < 2 ^ depth * 256)
+    (h : bitfieldIterNext H anchor depth st = some (b, st')) :
+    ∃ n, getAt anchor (st.i / 256) depth = some n ∧ n.isLeaf = true ∧
+      bitOfChunk (n.root H) st.i = b := by
+  obtain ⟨i, j, rootIndex, cur, stack⟩ := st
+  obtain ⟨hni, hcase⟩ := hinv
+  simp only at hni hcase hlt ⊢
+  rcases hcase with ⟨hj, hi⟩ | ⟨hj0, hjp, q, m, hr, hi, hcur, hml, hroot⟩
+  · have hdiv : i / 256 = rootIndex := by omega
+    have hmod : i % 256 = 0 := by omega
+    have hrlt : rootIndex < 2 ^ depth := by omega
+    simp only [bitfieldIterNext, hj, Nat.lt_irrefl, gt_iff_lt, if_false] at h
+    cases hnx : nodeIterNext anchor depth ⟨rootIndex, stack⟩ with
+    | none => simp [hnx] at h
+    | some r =>
+      obtain ⟨node, walk⟩ := r
+      simp only [hnx] at h
+      have hg := nodeIterNext_sound anchor depth ⟨rootIndex, stack⟩ node walk hni hrlt hnx
+      simp only at hg
+      cases hl : node.isLeaf with
+      | false => simp [hl] at h
+      | true =>
+        simp only [hl, Bool.not_true, Bool.false_eq_true, if_false, Option.some.injEq,
+          Prod.mk.injEq] at h
+        rw [hdiv]
+        exact ⟨node, hg, hl, by rw [← firstBit_eq (node.root H) i hmod]; exact h.1⟩
+  · have hdiv : i / 256 = q := by omega
+    have hmod : i % 256 = j := by omega
+    simp only [bitfieldIterNext, gt_iff_lt, hj0, if_true, Option.some.injEq, Prod.mk.injEq] at h
+    rw [hdiv]
+    exact ⟨m, hcur, hml, by rw [hroot, ← bitfieldIterBit_eq cur i j hmod]; exact h.1⟩
+
+theorem bitfieldIterRun_sound (H : Hash) (anchor : Node) (depth length : Nat)
+    (hb : length ≤ 2 ^ depth * 256) (fuel : Nat) (st : BitfieldIterState)
+    (out : List Bool) (hinv : BitInv H anchor depth st) (hfuel : length - st.i ≤ fuel)
+    (hrun : bitfieldIterRun H anchor depth length fuel st = some out) :
+    out.length = length - st.i ∧ ∀ i, st.i ≤ i → i < length →
+      ∃ n, getAt anchor (i / 256) depth = some n ∧ n.isLeaf = true ∧
+        bitOfChunk (n.root H) i = out.getD (i - st.i) false := by
+  induction fuel generalizing st out with
+  | zero =>
+    simp [bitfieldIterRun] at hrun
+    subst hrun
+    exact ⟨by simp; omega, fun i h1 h2 => by omega⟩
+  | succ fuel ih =>
+    by_cases hstop : st.i ≥ length
+    · simp [bitfieldIterRun, hstop] at hrun
+      subst hrun
+      exact ⟨by simp; omega, fun i h1 h2 => by omega⟩
+    · simp only [bitfieldIterRun, hstop, if_false] at hrun
+      cases hnx : bitfieldIterNext H anchor depth st with
+      | none => simp [hnx] at hrun
+      | some r =>
+        obtain ⟨v, st'⟩ := r
+        simp only [hnx] at hrun
+        obtain ⟨n, hn, hnl, hbit⟩ :=
+          bitfieldIterNext_sound H anchor depth st v st' hinv (by omega) hnx
+        obtain ⟨st'', hnx', hi', hinv'⟩ := bitfieldIterNext_spec H anchor depth st n hinv hn hnl
+        rw [hnx] at hnx'
+        simp only [Option.some.injEq, Prod.mk.injEq] at hnx'
+        obtain ⟨_, rfl⟩ := hnx'
+        cases hr : bitfieldIterRun H anchor depth length fuel st' with
+        | none => simp [hr] at hrun
+        | some rest =>
+          simp [hr] at hrun
+          subst hrun
+          obtain ⟨hl, hall⟩ := ih st' rest hinv' (by omega) hr
+          refine ⟨by simp [hl]; omega, ?_⟩
+          intro i h1 h2
+          by_cases hEq : i = st.i
+          · subst hEq
+            exact ⟨n, hn, hnl, by simpa using hbit⟩
+          · have := hall i (by omega) h2
+            rw [show i - st.i = (i - st'.i) + 1 by omega]
+            simpa using this
+
+/-- **2'. converse of `bitfieldIter_eq_index`**: if `BitfieldIter` does not raise, it yielded `length`
+    bits, every chunk it visited is a reachable leaf, and every yielded bit is the bit indexing
+    returns. -/
+theorem bitfieldIter_some_index (H : Hash) (anchor : Node) (depth length : Nat)
+    (bs : List Bool) (h : bitfieldIter H anchor depth length = some bs) :
+    length ≤ 2 ^ depth * 256 ∧ bs.length = length ∧
+    (∀ c, c * 256 < length → ∃ n, getAt anchor c depth = some n ∧ n.isLeaf = true) ∧
+    (∀ i, i < length →
+      (getAt anchor (i / 256) depth).map (fun c => bitOfChunk (c.root H) i)
+        = some (bs.getD i false)) := by
+  unfold bitfieldIter at h
+  simp only at h
+  split at h
+  · cases h
+  rename_i hlim
+  have hlen : length ≤ 2 ^ depth * 256 := by omega
+  obtain ⟨hl, hall⟩ := bitfieldIterRun_sound H anchor depth length hlen length _ bs
+    (bitInv_init H anchor depth zeroChunk) (by simp) h
+  refine ⟨hlen, by simpa using hl, ?_, ?_⟩
+  · intro c hc
+    obtain ⟨n, hn, hnl, _⟩ := hall (c * 256) (by simp) hc
+    rw [Nat.mul_div_cancel _ (by decide)] at hn
+    exact ⟨n, hn, hnl⟩
+  · intro i hi
+    obtain ⟨n, hn, _, hbit⟩ := hall i (by simp) hi
+    rw [hn, Option.map_some, hbit]
+    simp
+
+/-- `BitfieldIter` succeeds exactly when every needed chunk is a reachable leaf -/
+theorem bitfieldIter_isSome_iff (H : Hash) (anchor : Node) (depth length : Nat) :
+    (bitfieldIter H anchor depth length).isSome ↔
+      (length ≤ 2 ^ depth * 256 ∧
+        ∀ c, c * 256 < length → ∃ n, getAt anchor c depth = some n ∧ n.isLeaf = true) := by
+  constructor
+  · intro h
+    obtain ⟨bs, hbs⟩ := Option.isSome_iff_exists.1 h
+    obtain ⟨h1, _, h3, _⟩ := bitfieldIter_some_index H anchor depth length bs hbs
+    exact ⟨h1, h3⟩
+  · rintro ⟨h1, h2⟩
+    rw [bitfieldIter_eq_allSome H anchor depth length h1 h2]
+    have hdec : ∀ i ∈ List.range length,
+        (getAt anchor (i / 256) depth).map (fun c => bitOfChunk (c.root H) i)
+          = some (bitOfChunk (((getAt anchor (i / 256) depth).getD default).root H) i) := by
+      intro i hi
+      obtain ⟨n, hn, _⟩ := h2 (i / 256) (by simp at hi; omega)
+      simp [hn]
+    rw [allSome_map_some _ _ _ hdec]
+    rfl
+
+/-! ## 3. packed sequences and bitfields of a `Repr` tree: iterator = content -/
+
+theorem packed_facts (et : Ty) (hwf : et.wf = true) (hb : et.isBasic = true) (n : Nat) :
+    0 < et.basicSize ∧ et.basicSize ≤ 32 ∧ n ≤ chunkLen et n * (32 / et.basicSize) ∧
+      ∀ c, c * (32 / et.basicSize) < n → c < chunkLen et n := by
+  have hs := basicSize_cases et hwf hb
+  simp only [chunkLen, hb, if_true]
+  rcases hs with h | h | h | h | h | h <;> rw [h] <;> refine ⟨by omega, by omega, by omega, ?_⟩ <;>
+    intro c hc <;> omega
+
+theorem getD_of_lt {α} (l : List α) (d : α) (i : Nat) (hi : i < l.length) : l.getD i d = l[i] := by
+  simp [List.getD, List.getElem?_eq_getElem hi]
+
+/-- `PackedIter` over any anchor through which the chunk tree `n` of a packed sequence `vs` is
+    reached (the tree itself, or a node having it as left spine child) yields `vs`. -/
+theorem packedIter_ct (H : Hash) (et : Ty) (vs : List Val) (d : Nat) (n : Node)
+    (hwf : et.wf = true) (hb : et.isBasic = true) (hwt : ∀ v ∈ vs, WT et v = true)
+    (hct : ChunkTree H d ((packInts et.basicSize (vs.map numOf)).map .leaf) n)
+    (anchor : Node) (depth : Nat)
+    (hanchor : ∀ c, c < 2 ^ d → getAt anchor c depth = getAt n c d) (hdepth : 2 ^ d ≤ 2 ^ depth) :
+    packedIter H et anchor depth vs.length = some vs := by
+  obtain ⟨hsz, hsz32, hcap, hchunk⟩ := packed_facts et hwf hb vs.length
+  have hle := ct_length_le hct
+  have hpl := packInts_length' et hwf hb (vs.map numOf)
+  rw [List.length_map] at hpl
+  rw [List.length_map, hpl] at hle
+  have key := packedIter_eq_index H et anchor depth vs.length (fun i => vs.getD i (Val.num 0))
+    hsz hsz32
+    (Nat.le_trans hcap (Nat.mul_le_mul_right _ (Nat.le_trans hle hdepth)))
+    (fun c hc => by
+      have hc' := hchunk c hc
+      have hc2 : c < ((packInts et.basicSize (vs.map numOf)).map Node.leaf).length := by
+        rw [List.length_map, hpl]; exact hc'
+      rw [hanchor c (by omega), ct_get hct hc2]
+      exact ⟨_, rfl, by simp [Node.isLeaf]⟩)
+    (fun i hi => by
+      have := read_packed_elem H et vs d n hwf hb hwt hct i hi
+      rw [hanchor _ this.2, this.1, getD_of_lt vs _ i hi])
+  rw [key, range_map_getElem vs _ (fun i hi => getD_of_lt vs _ i hi)]
+
+/-- `BitfieldIter` over any anchor through which the chunk tree of the bits `bs` is reached -/
+theorem bitfieldIter_ct (H : Hash) (bs : List Bool) (d : Nat) (n : Node)
+    (hct : ChunkTree H d ((packBits bs).map .leaf) n) (anchor : Node) (depth : Nat)
+    (hanchor : ∀ c, c < 2 ^ d → getAt anchor c depth = getAt n c d) (hdepth : 2 ^ d ≤ 2 ^ depth) :
+    bitfieldIter H anchor depth bs.length = some bs := by
+  have hle := ct_length_le hct
+  rw [List.length_map, packBits_length] at hle
+  have key := bitfieldIter_eq_index H anchor depth bs.length (fun i => bs.getD i false)
+    (by
+      have : bs.length ≤ 2 ^ d * 256 := by omega
+      exact Nat.le_trans this (Nat.mul_le_mul_right _ hdepth))
+    (fun c hc => by
+      have hc2 : c < ((packBits bs).map Node.leaf).length := by
+        rw [List.length_map, packBits_length]; omega
+      rw [hanchor c (by omega), ct_get hct hc2]
+      exact ⟨_, rfl, by simp [Node.isLeaf]⟩)
+    (fun i hi => by
+      have := read_bit_elem H bs d n hct i hi
+      rw [hanchor _ this.2, this.1, getD_of_lt bs _ i hi])
+  rw [key, range_map_getElem bs _ (fun i hi => getD_of_lt bs _ i hi)]
+
+/-- packed `Vector`: `readonly_iter()` = `PackedIter(backing, tree_depth, length, elem_type)` -/
+theorem reads_agree_packed_vector (H : Hash) (et : Ty) (len : Nat) (vs : List Val) (n : Node)
+    (hwf : et.wf = true) (hb : et.isBasic = true)
+    (h : Impl.Repr H (.vector et len) (.seq vs) n) :
+    packedIter H et n (getDepth (chunkLen et len)) len = some vs := by
+  simp only [Impl.Repr, hb, if_true] at h
+  obtain ⟨hlen, hwt, hct⟩ := h
+  subst hlen
+  exact packedIter_ct H et vs _ n hwf hb hwt hct n _ (fun _ _ => rfl) (Nat.le_refl _)
+
+/-- packed `List`: the anchor is the WHOLE backing (contents + length mix-in) with
+    `tree_depth() = contents_depth() + 1` -/
+theorem reads_agree_packed_list (H : Hash) (et : Ty) (lim : Nat) (vs : List Val) (n : Node)
+    (hwf : et.wf = true) (hb : et.isBasic = true)
+    (h : Impl.Repr H (.list et lim) (.seq vs) n) :
+    packedIter H et n (getDepth (chunkLen et lim) + 1) vs.length = some vs := by
+  simp only [Impl.Repr, hb, if_true] at h
+  obtain ⟨_, c, rfl, hwt, hct⟩ := h
+  exact packedIter_ct H et vs _ c hwf hb hwt hct _ _
+    (fun i hi => by rw [mixInNode, getAt_mixin _ _ hi])
+    (Nat.pow_le_pow_right (by decide) (Nat.le_succ _))
+
+/-- …with the length read from the tree, as `readonly_iter()` does (`self.length()`) -/
+theorem reads_agree_packed_list_len (H : Hash) (et : Ty) (lim : Nat) (vs : List Val) (n : Node)
+    (hwf : et.wf = true) (hb : et.isBasic = true) (hlim : lim < 2 ^ 256)
+    (h : Impl.Repr H (.list et lim) (.seq vs) n) :
+    ((listLength H n).bind fun len => packedIter H et n (getDepth (chunkLen et lim) + 1) len)
+      = some vs := by
+  have hit := reads_agree_packed_list H et lim vs n hwf hb h
+  simp only [Impl.Repr] at h
+  obtain ⟨hl, c, rfl, _⟩ := h
+  rw [listLength_mixin H c _ (by omega : vs.length < 2 ^ 256)]
+  exact hit
+
+/-- **3a. packed sequences: all read paths agree.**  For a tree representing a packed vector / list
+    `vs`, the iterator yields `vs`, and so does the index loop (`readVal`). -/
+theorem reads_agree_packed (H : Hash) (et : Ty) (k : Nat) (vs : List Val) (n : Node)
+    (hwf : et.wf = true) (hb : et.isBasic = true) :
+    (Impl.Repr H (.vector et k) (.seq vs) n →
+      packedIter H et n (getDepth (chunkLen et k)) k = some vs) ∧
+    (Impl.Repr H (.list et k) (.seq vs) n →
+      packedIter H et n (getDepth (chunkLen et k) + 1) vs.length = some vs) :=
+  ⟨reads_agree_packed_vector H et k vs n hwf hb, reads_agree_packed_list H et k vs n hwf hb⟩
+
+/-- `Bitvector.__iter__` = `BitfieldIter(backing, tree_depth, vector_length)` -/
+theorem reads_agree_bits_vector (H : Hash) (len : Nat) (bs : List Bool) (n : Node)
+    (h : Impl.Repr H (.bitvector len) (.bits bs) n) :
+    bitfieldIter H n (getDepth ((len + 255) / 256)) len = some bs := by
+  simp only [Impl.Repr] at h
+  obtain ⟨hlen, hct⟩ := h
+  subst hlen
+  exact bitfieldIter_ct H bs _ n hct n _ (fun _ _ => rfl) (Nat.le_refl _)
+
+/-- `Bitlist.__iter__` = `BitfieldIter(backing.get_left(), contents_depth, length)`: the anchor is the
+    LEFT child (the contents), with the contents depth -/
+theorem reads_agree_bits_list (H : Hash) (lim : Nat) (bs : List Bool) (n : Node)
+    (h : Impl.Repr H (.bitlist lim) (.bits bs) n) :
+    ((getLeft n).bind fun l => bitfieldIter H l (getDepth ((lim + 255) / 256)) bs.length)
+      = some bs := by
+  simp only [Impl.Repr] at h
+  obtain ⟨_, c, rfl, hct⟩ := h
+  simp only [mixInNode, getLeft, Option.bind_some]
+  exact bitfieldIter_ct H bs _ c hct c _ (fun _ _ => rfl) (Nat.le_refl _)
+
+/-- …with the length read from the tree (`self.length()`) -/
+theorem reads_agree_bits_list_len (H : Hash) (lim : Nat) (bs : List Bool) (n : Node)
+    (hlim : lim < 2 ^ 256) (h : Impl.Repr H (.bitlist lim) (.bits bs) n) :
+    ((listLength H n).bind fun len => (getLeft n).bind fun l =>
+      bitfieldIter H l (getDepth ((lim + 255) / 256)) len) = some bs := by
+  have hit := reads_agree_bits_list H lim bs n h
+  simp only [Impl.Repr] at h
+  obtain ⟨hl, c, rfl, _⟩ := h
+  rw [listLength_mixin H c _ (by omega : bs.length < 2 ^ 256)]
+  exact hit
+
+/-- **3b. bitfields: all read paths agree.** -/
+theorem reads_agree_bits (H : Hash) (k : Nat) (bs : List Bool) (n : Node) :
+    (Impl.Repr H (.bitvector k) (.bits bs) n →
+      bitfieldIter H n (getDepth ((k + 255) / 256)) k = some bs) ∧
+    (Impl.Repr H (.bitlist k) (.bits bs) n →
+      ((getLeft n).bind fun l => bitfieldIter H l (getDepth ((k + 255) / 256)) bs.length)
+        = some bs) :=
+  ⟨reads_agree_bits_vector H k bs n, reads_agree_bits_list H k bs n⟩
+
+/-- iterator and index loop coincide on represented packed vectors (both are the content) -/
+theorem packedIter_eq_readVal_vector (H : Hash) (et : Ty) (len : Nat) (vs : List Val) (n : Node)
+    (hwf : (Ty.vector et len).wf = true) (hlim : limitsOk (.vector et len) = true)
+    (hb : et.isBasic = true) (h : Impl.Repr H (.vector et len) (.seq vs) n) :
+    (packedIter H et n (getDepth (chunkLen et len)) len).map Val.seq
+      = readVal H (.vector et len) n := by
+  have hwf' : et.wf = true := by simp [Ty.wf] at hwf; exact hwf.2
+  rw [reads_agree_packed_vector H et len vs n hwf' hb h, repr_read H _ _ n hwf hlim h]
+  rfl
+
+theorem bitfieldIter_eq_readVal_vector (H : Hash) (len : Nat) (bs : List Bool) (n : Node)
+    (hwf : (Ty.bitvector len).wf = true) (h : Impl.Repr H (.bitvector len) (.bits bs) n) :
+    (bitfieldIter H n (getDepth ((len + 255) / 256)) len).map Val.bits
+      = readVal H (.bitvector len) n := by
+  rw [reads_agree_bits_vector H len bs n h, repr_read H _ _ n hwf rfl h]
+  rfl
+
+/-! ## 4. unpacked sequences and containers: `NodeIter` yields the element nodes -/
+
+/-- `NodeIter` over any anchor through which the chunk tree `n` with bottom nodes `ns` is reached -/
+theorem nodeIter_ct (H : Hash) (d : Nat) (ns : List Node) (n : Node) (hct : ChunkTree H d ns n)
+    (anchor : Node) (depth : Nat)
+    (hanchor : ∀ c, c < 2 ^ d → getAt anchor c depth = getAt n c d) (hdepth : 2 ^ d ≤ 2 ^ depth) :
+    nodeIter anchor depth ns.length = some ns := by
+  have hle := ct_length_le hct
+  apply nodeIter_eq_getAt anchor depth ns.length ns (by omega) _ rfl
+  intro i hi
+  rw [hanchor i (by omega), ct_get hct hi, getD_of_lt ns _ i hi]
+
+theorem reprFields_get {H : Hash} : ∀ {fs : List Ty} {vs : List Val} {ns : List Node},
+    ReprFields H fs vs ns → ∀ (i : Nat) (h1 : i < fs.length) (h2 : i < vs.length)
+      (h3 : i < ns.length), Impl.Repr H fs[i] vs[i] ns[i]
+  | [], [], [], _, i, h1, _, _ => by simp at h1
+  | t :: ts, v :: vs, m :: ns, h, i, h1, h2, h3 => by
+    simp only [ReprFields] at h
+    cases i with
+    | zero => exact h.1
+    | succ i =>
+      exact reprFields_get (fs := ts) (vs := vs) (ns := ns) h.2 i (by simpa using h1)
+        (by simpa using h2) (by simpa using h3)
+  | [], _ :: _, _, h, _, _, _, _ => by simp only [ReprFields] at h
+  | [], [], _ :: _, h, _, _, _, _ => by simp only [ReprFields] at h
+  | _ :: _, [], _, h, _, _, _, _ => by simp only [ReprFields] at h
+  | _ :: _, _ :: _, [], h, _, _, _, _ => by simp only [ReprFields] at h
+
+/-- unpacked `Vector`: `ComplexElemIter` / `ComplexFreshElemIter` = `NodeIter(backing, tree_depth,
+    length)` + `view_from_backing` on every yielded node -/
+theorem reads_agree_unpacked_vector (H : Hash) (et : Ty) (len : Nat) (vs : List Val) (n : Node)
+    (hb : et.isBasic = false) (h : Impl.Repr H (.vector et len) (.seq vs) n) :
+    ∃ ns, nodeIter n (getDepth (chunkLen et len)) len = some ns ∧
+      AllRel (Impl.Repr H et) vs ns := by
+  simp only [Impl.Repr, hb, Bool.false_eq_true, if_false] at h
+  obtain ⟨hlen, ns, hall, hct⟩ := h
+  refine ⟨ns, ?_, hall⟩
+  have := nodeIter_ct H _ ns n hct n _ (fun _ _ => rfl) (Nat.le_refl _)
+  rwa [← allRel_length hall, hlen] at this
+
+/-- unpacked `List`: anchor = whole backing, depth = contents depth + 1 -/
+theorem reads_agree_unpacked_list (H : Hash) (et : Ty) (lim : Nat) (vs : List Val) (n : Node)
+    (hb : et.isBasic = false) (h : Impl.Repr H (.list et lim) (.seq vs) n) :
+    ∃ ns, nodeIter n (getDepth (chunkLen et lim) + 1) vs.length = some ns ∧
+      AllRel (Impl.Repr H et) vs ns := by
+  simp only [Impl.Repr, hb, Bool.false_eq_true, if_false] at h
+  obtain ⟨_, c, rfl, ns, hall, hct⟩ := h
+  refine ⟨ns, ?_, hall⟩
+  have := nodeIter_ct H _ ns c hct (mixInNode c vs.length) (getDepth (chunkLen et lim) + 1)
+    (fun i hi => by rw [mixInNode, getAt_mixin _ _ hi])
+    (Nat.pow_le_pow_right (by decide) (Nat.le_succ _))
+  rwa [← allRel_length hall] at this
+
+/-- `Container.__iter__` = `ContainerElemIter(backing, tree_depth, field types)` -/
+theorem reads_agree_container (H : Hash) (fs : List Ty) (vs : List Val) (n : Node)
+    (h : Impl.Repr H (.container fs) (.seq vs) n) :
+    ∃ ns, nodeIter n (getDepth fs.length) fs.length = some ns ∧ ReprFields H fs vs ns := by
+  simp only [Impl.Repr] at h
+  obtain ⟨ns, hf, hct⟩ := h
+  refine ⟨ns, ?_, hf⟩
+  have := nodeIter_ct H _ ns n hct n _ (fun _ _ => rfl) (Nat.le_refl _)
+  rwa [(reprFields_length hf).2] at this
+
+/-- **4. unpacked sequences and containers: all read paths agree.**  The node iterator over a `Repr`
+    tree yields, in order, nodes that represent the elements / fields. -/
+theorem reads_agree_unpacked (H : Hash) (et : Ty) (k : Nat) (fs : List Ty) (vs : List Val) (n : Node)
+    (hb : et.isBasic = false) :
+    (Impl.Repr H (.vector et k) (.seq vs) n →
+      ∃ ns, nodeIter n (getDepth (chunkLen et k)) k = some ns ∧ AllRel (Impl.Repr H et) vs ns) ∧
+    (Impl.Repr H (.list et k) (.seq vs) n →
+      ∃ ns, nodeIter n (getDepth (chunkLen et k) + 1) vs.length = some ns ∧
+        AllRel (Impl.Repr H et) vs ns) ∧
+    (Impl.Repr H (.container fs) (.seq vs) n →
+      ∃ ns, nodeIter n (getDepth fs.length) fs.length = some ns ∧ ReprFields H fs vs ns) :=
+  ⟨reads_agree_unpacked_vector H et k vs n hb, reads_agree_unpacked_list H et k vs n hb,
+    reads_agree_container H fs vs n⟩
+
+/-- reading every yielded element node through its own view (`view_from_backing` + full read) gives
+    the elements back -/
+theorem allRel_read (H : Hash) (et : Ty) (hwf : et.wf = true) (hlim : limitsOk et = true) :
+    ∀ (vs : List Val) (ns : List Node), AllRel (Impl.Repr H et) vs ns →
+      allSome (ns.map (readVal H et)) = some vs
+  | [], [], _ => rfl
+  | v :: vs, m :: ns, h => by
+    simp only [List.map_cons, repr_read H et v m hwf hlim h.1, allSome,
+      allRel_read H et hwf hlim vs ns h.2, Option.map_some]
+  | [], _ :: _, h => by cases h
+  | _ :: _, [], h => by cases h
+
+/-- unpacked vector: iterate, then read each element = the content -/
+theorem iter_then_read_vector (H : Hash) (et : Ty) (len : Nat) (vs : List Val) (n : Node)
+    (hwf : et.wf = true) (hlim : limitsOk et = true) (hb : et.isBasic = false)
+    (h : Impl.Repr H (.vector et len) (.seq vs) n) :
+    ((nodeIter n (getDepth (chunkLen et len)) len).bind fun ns => allSome (ns.map (readVal H et)))
+      = some vs := by
+  obtain ⟨ns, hit, hall⟩ := reads_agree_unpacked_vector H et len vs n hb h
+  rw [hit, Option.bind_some, allRel_read H et hwf hlim vs ns hall]
+
+theorem iter_then_read_list (H : Hash) (et : Ty) (lim : Nat) (vs : List Val) (n : Node)
+    (hwf : et.wf = true) (hlim : limitsOk et = true) (hb : et.isBasic = false)
+    (h : Impl.Repr H (.list et lim) (.seq vs) n) :
+    ((nodeIter n (getDepth (chunkLen et lim) + 1) vs.length).bind
+      fun ns => allSome (ns.map (readVal H et))) = some vs := by
+  obtain ⟨ns, hit, hall⟩ := reads_agree_unpacked_list H et lim vs n hb h
+  rw [hit, Option.bind_some, allRel_read H et hwf hlim vs ns hall]
+
+/-- container: the `i`-th yielded node, read as field type `i`, is field `i` -/
+theorem iter_then_read_container (H : Hash) (fs : List Ty) (vs : List Val) (n : Node)
+    (hwf : Ty.wfList fs = true) (hlim : limitsOkList fs = true)
+    (h : Impl.Repr H (.container fs) (.seq vs) n) :
+    ∃ ns, nodeIter n (getDepth fs.length) fs.length = some ns ∧ ns.length = fs.length ∧
+      vs.length = fs.length ∧
+      ∀ (i : Nat) (h1 : i < fs.length) (h2 : i < vs.length) (h3 : i < ns.length),
+        readVal H fs[i] ns[i] = some vs[i] := by
+  obtain ⟨ns, hit, hf⟩ := reads_agree_container H fs vs n h
+  have hl := reprFields_length hf
+  refine ⟨ns, hit, hl.2, hl.1, ?_⟩
+  intro i h1 h2 h3
+  have hr := reprFields_get hf i h1 h2 h3
+  have hwfi : ∀ (fs : List Ty) (i : Nat) (h : i < fs.length), Ty.wfList fs = true →
+      limitsOkList fs = true → fs[i].wf = true ∧ limitsOk fs[i] = true := by
+    intro fs
+    induction fs with
+    | nil => intro i h; simp at h
+    | cons t ts ih =>
+      intro i h hw hl
+      simp [Ty.wfList] at hw
+      simp [limitsOkList] at hl
+      cases i with
+      | zero => exact ⟨hw.1, hl.1⟩
+      | succ i => exact ih i (by simpa using h) hw.2 hl.2
+  obtain ⟨w1, w2⟩ := hwfi fs i h1 hwf hlim
+  exact repr_read H _ _ _ w1 w2 hr
+
+/-! ## 5. non-vacuity: the state machines on concrete trees (any `H`) -/
+
+/-- two chunks of `uint128` (2 per chunk), 3 elements, depth 1: crosses a chunk boundary -/
+example (H : Hash) :
+    packedIter H (.uint 16)
+      (.pair (.leaf (toLE 16 5 ++ toLE 16 6)) (.leaf (toLE 16 7 ++ toLE 16 0))) 1 3
+      = some [.num 5, .num 6, .num 7] := by rfl
+
+/-- `per_node = 1` (`uint256`): `j = 1 = per_node` right after the fetch -/
+example (H : Hash) :
+    packedIter H (.uint 32) (.pair (.leaf (toLE 32 9)) (.leaf (toLE 32 8))) 1 2
+      = some [.num 9, .num 8] := by rfl
+
+/-- a bottom node that is not a leaf makes the iterator raise (indexing would hash it instead) -/
+example (H : Hash) :
+    packedIter H (.uint 32) (.pair (.leaf (toLE 32 9)) (.pair (.leaf []) (.leaf []))) 1 2 = none := by
+  rfl
+
+/-- the length check of `__init__` -/
+example (H : Hash) (n : Node) : packedIter H (.uint 32) n 1 3 = none := by rfl
+
+example (H : Hash) :
+    bitfieldIter H (.leaf (UInt8.ofNat 5 :: zeros 31)) 0 4 = some [true, false, true, false] := by
+  rfl
 
 end Rmk.ItersLaws
